@@ -36,6 +36,9 @@ var clockNow = T0
 // SetClock sets the virtual clock (shared by every node of the process).
 func SetClock(t time.Time) { clockMu.Lock(); clockNow = t; clockMu.Unlock() }
 
+// Clock returns the virtual clock.
+func Clock() time.Time { clockMu.Lock(); defer clockMu.Unlock(); return clockNow }
+
 func init() {
 	vtime.SetNow(func() time.Time { clockMu.Lock(); defer clockMu.Unlock(); return clockNow })
 }
